@@ -254,6 +254,18 @@ def must_follow(ctx):
     for i in assigns:
         r = uk.reachable_after(i, removed_nodes=[p.bb for p in polls(uk, ACC + "::save")])
         ctx.require(R4, not (set(okb) & r), where(uk, i), "after replacing the key the account is saved before success", [ACC + "::update_keys", "not-saved"])
+    # the same function EVALUATED: for every pair of (key type, signature algorithm) states, a differing configuration creates a
+    # new current key of the configured type/algorithm and keeps the old one; an equal configuration changes nothing
+    kt_rows = key_edit_table(prog)
+    if kt_rows is None:
+        ctx.ok(R4, "update_keys not evaluable on this tree (structural rules only)")
+    else:
+        for (k1, a1, k2, a2), got in kt_rows:
+            differs = (k1, a1) != (k2, a2)
+            want = ("new", k2, a2, [(k1, a1)]) if differs else ("same", k1, a1, [])
+            ctx.require(R4, got is not None and got[:4] == want and (not differs or got[4]), "%s:%s" % (uk.file, uk.line),
+                        "update_keys evaluated: stored key (%s, %s), configuration (%s, %s) -> %s (expected %s%s)" % (k1, a1, k2, a2, got, want, ", saved" if differs else ""),
+                        [ACC + "::update_keys", "evaluated", k1, a1, k2, a2])
     # append-only
     n_sites = 0
     for b in prog.user_bodies(("acmed",)):
@@ -468,3 +480,94 @@ def sync_table(prog, sb):
                                 ev.append("poll:" + fn.rsplit("::", 1)[1])
                     out[(url, ext, key, ct)] = (r.kind, ev)
     return out
+
+
+KT = "acme_common::crypto::key_type::KeyType"
+JA = "acme_common::crypto::jws_signature_algorithm::JwsSignatureAlgorithm"
+KP = "acme_common::crypto::openssl_keys::KeyPair"
+AK = "acmed::account::AccountKey"
+
+
+def key_edit_table(prog):
+    """Account::update_keys interpreted on an account whose current key is (k1, a1) with the configuration (k2, a2):
+    [((k1, a1, k2, a2), ("new"|"same", current key type, current algorithm, [superseded (type, alg)], saved?))] or None.
+    Samples: every ordered pair of key types under one algorithm, every ordered pair of algorithms under one key type, and both
+    changed at once (the comparison must not depend on which pairs are compatible)."""
+    from ..absint import Interp, Val, _FRAME_SEQ, _FRAMES, async_state, ok, struct_val, success_model, variant
+    key = ACC + "::update_keys"
+    b = prog.async_body(key)
+    if b is None or prog.adt(KT) is None or prog.adt(JA) is None or prog.adt(AK) is None or prog.adt(KP) is None:
+        return None
+    kts, jas = prog.adt_variants(KT), prog.adt_variants(JA)
+    akf, kpf, accf = prog.adt_fields(AK), prog.adt_fields(KP), prog.adt_fields(ACC)
+    if "key_type" not in kpf or "current_key" not in accf or "past_keys" not in accf:
+        return None
+    natural = {"Rsa2048": "Rs256", "Rsa4096": "Rs256", "EcdsaP256": "Es256", "EcdsaP384": "Es384", "EcdsaP521": "Es512", "Ed25519": "Ed25519", "Ed448": "Ed448"}
+    nat = lambda k: natural.get(k) if natural.get(k) in jas else jas[0]
+    samples = [(k1, nat(k1), k2, nat(k2)) for k1 in kts for k2 in kts] + [(k1, jas[0], k2, jas[0]) for k1 in kts for k2 in kts] + [(kts[0], a1, kts[0], a2) for a1 in jas for a2 in jas] + \
+              [(kts[i % len(kts)], jas[i % len(jas)], kts[(i + 1) % len(kts)], jas[(i + 2) % len(jas)]) for i in range(len(kts) * 2)]
+
+    def mk(kt, al):
+        kp = struct_val(prog, KP, {"key_type": variant(KT, kt)})
+        fields = {}
+        for f in prog.adt(AK)["variants"][0]["fields"]:
+            if f["ty"] == KP:
+                fields[f["name"]] = kp
+            elif f["ty"] == JA:
+                fields[f["name"]] = variant(JA, al)
+        return struct_val(prog, AK, fields)
+
+    def read(v):
+        v = v.deref()
+        if v.k != "adt" or not v.extra or v.extra[0] != AK:
+            return None
+        kt = al = None
+        for f, x in zip(prog.adt(AK)["variants"][0]["fields"], v.v):
+            xd = x.deref()
+            if f["ty"] == KP and xd.k == "adt":
+                t = xd.v[kpf.index("key_type")].deref()
+                kt = t.v if t.k == "variant" else None
+            elif f["ty"] == JA:
+                al = xd.v if xd.k == "variant" else None
+        return (kt, al) if kt is not None and al is not None else None
+    rows = []
+    for (k1, a1, k2, a2) in samples:
+        saved = [0]
+
+        def model(cs, args):
+            n = cs.name or ""
+            if n.endswith("::gen_keypair") and args and args[0].deref().k == "variant":
+                return ok(struct_val(prog, KP, {"key_type": args[0].deref()}))
+            if n.startswith(ACC + "::save"):
+                saved[0] += 1
+            return None
+        acc = struct_val(prog, ACC, {"current_key": mk(k1, a1), "past_keys": Val("list", [])})
+        it = Interp(b, success_model(b, model), 100000)
+        it.follow = lambda cs: (cs.name or "").startswith(("acmed::account::AccountKey", "<acmed::account::AccountKey", "acme_common::crypto::key_type", "acme_common::crypto::jws_signature_algorithm",
+                                                           "<acme_common::crypto::key_type", "<acme_common::crypto::jws_signature_algorithm"))
+
+        def binder(name, ty, i):
+            if ty.startswith("&mut "):
+                return Val("ref", acc, ("place", 9000, _FRAME_SEQ[0] + 1))
+            if ty == KT:
+                return variant(KT, k2)
+            if ty == JA:
+                return variant(JA, a2)
+            return None
+        try:
+            r = it.run({9000: acc, 1: async_state(prog, key, binder)})
+        except Exception:
+            return None
+        cur = (_FRAMES.get(getattr(it, "fid", None)) or {}).get(9000)
+        if r.kind != "return" or cur is None or cur.k != "adt":
+            return None
+        ck = read(cur.v[accf.index("current_key")])
+        pk = cur.v[accf.index("past_keys")].deref()
+        if ck is None or pk.k != "list":
+            return None
+        past = [read(x) for x in pk.v]
+        if any(x is None for x in past):
+            return None
+        fresh = cur.v[accf.index("current_key")].deref() is not acc.v[accf.index("current_key")] and (bool(past) or ck != (k1, a1))
+        rows.append(((k1, a1, k2, a2), ("new" if fresh else "same", ck[0], ck[1], past, saved[0] > 0)))
+    return rows
